@@ -31,7 +31,8 @@ theorem py_split_counts : Py.split_counts.ok = false ∨
       Py.split_counts L dt (N : ℤ) =
         (let k := intervalsCode L dt
          let nw := truncInt ((N : ℝ) / (ofInt k : ℝ))
-         if nw < 1 then none else some (k + 1, nw)) := by
+         if k = 0 then none                      -- n_samples / 0: ZeroDivisionError (the model's "zerodiv")
+         else if nw < 1 then none else some (k + 1, nw)) := by
   bridge_cases
     intro L dt N
     simp only [Py.split_counts, intervalsCode, py_round_eq, py_trunc_eq, ofNat_real, Nat.cast_zero, zero_add, add_sub_cancel_right,
